@@ -12,6 +12,9 @@ of the functions concerned:
       tested by truthiness: `if step:` treats step 0 / an empty filter like "absent".
   G3  arguments that carry the callee's parameter names are passed in the callee's order: `f(b, a)` for
       `def f(a, b)` — unless the pair is listed (one intentional transposition on the reference tree).
+  G4  no sequence is built by repeating a reference to one mutable container (`([],) * n`): none on the reference tree.
+  G5  a lambda created in a `for` loop that reads the loop variable is consumed within the iteration (map / tree_map / sorted / ...);
+      handed to anything that stores it, all such lambdas see the last value (late binding). One reviewed site on the reference tree.
 
 Nothing is reported for functions that do not exist on the reference tree (G1) or for code the rule
 cannot resolve (G3: unresolved callee, star arguments).
@@ -37,6 +40,9 @@ G3_ALLOWED = {
 
 # G2: reviewed truthiness tests of optional value-typed parameters
 G2_ALLOWED = {
+    ('flax/linen/attention.py', 'MultiHeadDotProductAttention.__call__', 'out_features'): '`self.out_features or inputs_q.shape[-1]`: a layer with 0 output features is meaningless, 0 reads as "same as input"',
+    ('flax/linen/attention.py', 'MultiHeadDotProductAttention.__call__', 'qkv_features'): '`self.qkv_features or inputs_q.shape[-1]`: as above',
+    ('flax/core/scope.py', 'Scope.__init__', 'rngs'): '`{...: LazyRng.create(v) ...} if rngs else {}`: an empty mapping and None both give the empty mapping',
     ('flax/nnx/nn/recurrent.py', 'RNN.__init__', 'state_axes'): '`state_axes or {...: Carry}`: an empty mapping selects the default axes like None does (nothing can be scanned with no axes)',
 }
 
@@ -73,10 +79,23 @@ def ext_anchors(prop):
   return _EXT.get(prop, [])
 
 
+# files that carry part of a property's mechanism without being listed in its anchors (found while reading the code / seeds)
+EXTRA_FILES = {
+    'C04': ['flax/nnx/variablelib.py', 'flax/nnx/statelib.py'],
+    'C05': ['flax/linen/module.py'],
+    'C06': ['flax/linen/module.py', 'flax/core/scope.py'],
+    'C07': ['flax/linen/module.py', 'flax/core/scope.py'],
+    'C09': ['flax/linen/module.py'],
+    'C18': ['flax/core/meta.py', 'flax/linen/spmd.py'],
+    'C19': ['flax/linen/transforms.py', 'flax/nnx/variablelib.py'],
+    'C16': ['flax/nnx/graph.py'],
+}
+
+
 def rule_files(prop):
   """Anchor files plus every file the property's own rules consult on the reference tree (a property's rules may follow its
   mechanism beyond the listed anchors, e.g. C14's first-match rule reads nnx/graph.py::_graph_pop)."""
-  out = set(anchors(prop))
+  out = set(anchors(prop)) | set(EXTRA_FILES.get(prop, []))
   ref = reference.load()
   for rid, v in ref.items():
     if rid.startswith(prop + '.') and isinstance(v, dict) and not rid.endswith('.R90') and not rid.endswith('.R91'):
@@ -176,8 +195,11 @@ def g2_optional_truthiness(R, repo, rels):
       opt = {x.arg for x, d in list(zip(pos, defs)) + list(zip(a.kwonlyargs, a.kw_defaults)) if d is not None and _optional_falsy(x, d)}
       if not opt:
         continue
-      stores = {x.id for x in astu.body_walk(f.node) if isinstance(x, ast.Name) and isinstance(x.ctx, ast.Store)}
-      opt -= stores
+      # a parameter that is re-bound (`p = p or {}`, `if p is None: p = {}`) is judged only up to its first re-binding
+      first_store = {}
+      for x in astu.body_walk(f.node):
+        if isinstance(x, ast.Name) and isinstance(x.ctx, ast.Store) and x.id in opt:
+          first_store[x.id] = min(first_store.get(x.id, 10 ** 9), x.lineno)
       n += len(opt)
       for x in astu.body_walk(f.node, into_lambda=False):
         tests = []
@@ -192,10 +214,47 @@ def g2_optional_truthiness(R, repo, rels):
         for te in tests:
           while isinstance(te, ast.UnaryOp) and isinstance(te.op, ast.Not):
             te = te.operand
-          if isinstance(te, ast.Name) and te.id in opt and (rel, q, te.id) not in G2_ALLOWED:
+          if isinstance(te, ast.Name) and te.id in opt and (rel, q, te.id) not in G2_ALLOWED and te.lineno <= first_store.get(te.id, 10 ** 9):
             R.fail(key_of(f, 'optional `%s` tested with `is None`, not by truthiness' % te.id), (f, te),
                    '`%s` defaults to None but has falsy legal values (its annotation is `%s`); testing it by truthiness treats 0 / an empty value like "not given"' % (
                        te.id, astu.short(next(z.annotation for z in pos + a.kwonlyargs if z.arg == te.id))))
+    # the same for optional value-typed *fields* of a class (dataclass fields, or `self.x = x` of an Optional __init__ parameter)
+    for cname, c in sorted(m.classes.items()):
+      opt = {}
+      for st in c.body:
+        if isinstance(st, ast.AnnAssign) and isinstance(st.target, ast.Name) and st.value is not None and _optional_falsy(ast.arg(arg=st.target.id, annotation=st.annotation), st.value):
+          opt[st.target.id] = st.annotation
+      for meth in c.body:
+        if isinstance(meth, ast.FunctionDef) and meth.name == '__init__':
+          a = meth.args
+          pos = a.posonlyargs + a.args
+          defs = [None] * (len(pos) - len(a.defaults)) + list(a.defaults)
+          cand = {x.arg: x for x, d in list(zip(pos, defs)) + list(zip(a.kwonlyargs, a.kw_defaults)) if d is not None and _optional_falsy(x, d)}
+          for x in ast.walk(meth):
+            if isinstance(x, ast.Assign) and len(x.targets) == 1 and isinstance(x.targets[0], ast.Attribute) and isinstance(x.targets[0].value, ast.Name) and x.targets[0].value.id == 'self' \
+                and isinstance(x.value, ast.Name) and x.value.id in cand:
+              opt[x.targets[0].attr] = cand[x.value.id].annotation
+      if not opt:
+        continue
+      n += len(opt)
+      for meth in c.body:
+        if not isinstance(meth, (ast.FunctionDef, ast.AsyncFunctionDef)):
+          continue
+        f = m.funcs.get('%s.%s' % (cname, meth.name))
+        for x in ast.walk(meth):
+          tests = []
+          if isinstance(x, (ast.If, ast.While, ast.IfExp)):
+            tests = [x.test]
+          elif isinstance(x, ast.BoolOp):
+            tests = list(x.values)
+          elif isinstance(x, ast.UnaryOp) and isinstance(x.op, ast.Not):
+            tests = [x.operand]
+          for te in tests:
+            while isinstance(te, ast.UnaryOp) and isinstance(te.op, ast.Not):
+              te = te.operand
+            if isinstance(te, ast.Attribute) and isinstance(te.value, ast.Name) and te.value.id == 'self' and te.attr in opt and (rel, '%s.%s' % (cname, meth.name), te.attr) not in G2_ALLOWED and f is not None:
+              R.fail(key_of(f, 'optional field `self.%s` tested with `is None`, not by truthiness' % te.attr), (f, te),
+                     '`self.%s` defaults to None but has falsy legal values (annotation `%s`); testing it by truthiness treats 0 / 0.0 / an empty value like "not given"' % (te.attr, astu.short(opt[te.attr])))
     R.ok(key_of(rel, 'optional value-typed parameters are compared with None (%d parameters)' % n), m)
 
 
@@ -233,6 +292,54 @@ def g3_transposed_arguments(R, repo, rels):
     R.ok(key_of(rel, 'same-named arguments are passed in the callee\'s order (%d resolved calls)' % n), m)
 
 
+def g4_repeated_mutable(R, repo, rels):
+  """`([],) * n` / `[{}] * n`: n references to ONE list / dict - filling one slot fills them all."""
+  for rel in rels:
+    if rel not in repo._paths:
+      continue
+    m = repo.mod(rel)
+    for q, f in sorted(m.funcs.items()):
+      for x in astu.body_walk(f.node):
+        if isinstance(x, ast.BinOp) and isinstance(x.op, ast.Mult):
+          for side in (x.left, x.right):
+            if isinstance(side, (ast.Tuple, ast.List)) and any(isinstance(e, (ast.List, ast.Dict, ast.Set, ast.ListComp, ast.DictComp)) or (isinstance(e, ast.Call) and isinstance(e.func, ast.Name) and e.func.id in ('list', 'dict', 'set')) for e in side.elts):
+              if astu.enclosing_func(x) is f.node or True:
+                R.fail(key_of(f, 'no repeated reference to one mutable container'), (f, x), '`%s` repeats a reference to a single list / dict: every slot is the same object, so an item added to one group appears in all of them' % astu.short(x))
+    R.ok(key_of(rel, 'no sequence built by repeating one mutable container'), m)
+
+
+_IMMEDIATE = {'map', 'tree_map', 'filter', 'sorted', 'max', 'min', 'any', 'all', 'sum', 'tuple', 'list', 'dict', 'set', 'reduce', 'sort', 'tree_map_with_path', 'next', 'zip',
+              'enumerate', 'wait_for', 'frozenset', 'join', 'tree_leaves', 'tree_flatten', 'eval_shape', 'map_axis_meta',
+              '_check_valid_context'}  # the last: error-message thunk of nnx Object, evaluated (if at all) inside the call
+
+
+def g5_late_binding(R, repo, rels):
+  """A lambda created inside a `for` loop that reads the loop variable must be consumed within the iteration (passed to map / tree_map /
+  sorted ...): handed to anything that keeps it, every stored callable sees the *last* value of the loop variable."""
+  for rel in rels:
+    if rel not in repo._paths:
+      continue
+    m = repo.mod(rel)
+    for q, f in sorted(m.funcs.items()):
+      for lp in [n for n in astu.body_walk(f.node, into_lambda=False) if isinstance(n, ast.For)]:
+        tv = {n.id for n in ast.walk(lp.target) if isinstance(n, ast.Name)}
+        for lam in [n for st in lp.body for n in ast.walk(st) if isinstance(n, ast.Lambda)]:
+          params = set(astu.params(lam))
+          cap = ({n.id for n in ast.walk(lam.body) if isinstance(n, ast.Name)} - params) & tv
+          if not cap or any(isinstance(d, ast.Name) and d.id in cap for d in lam.args.defaults + [x for x in lam.args.kw_defaults if x is not None]):
+            continue
+          par = astu.parent(lam)
+          call = par if isinstance(par, ast.Call) else (astu.parent(par) if isinstance(par, ast.keyword) else None)
+          if isinstance(call, ast.Call) and ((astu.call_tail(call) or '') in _IMMEDIATE):
+            continue
+          if isinstance(par, ast.Call) and par.func is lam:
+            continue  # called on the spot
+          R.fail(key_of(f, 'lambda in a loop does not outlive the iteration'), (f, lam),
+                 '`%s` is created inside the loop over `%s` and reads the loop variable, but it is handed to `%s`, which keeps it: when it finally runs, every such lambda sees the value of `%s` from the *last* iteration' % (
+                     astu.short(lam), astu.short(lp.target), astu.short(call.func if isinstance(call, ast.Call) else par, 50), sorted(cap)[0]))
+    R.ok(key_of(rel, 'no loop-variable capture by a stored lambda'), m)
+
+
 def run(R, repo, prop):
   rels = rule_files(prop)
   R.require(bool(rels), 'no anchor files for %s' % prop)
@@ -241,6 +348,8 @@ def run(R, repo, prop):
   g1_dead_options(R, repo, rels)
   g2_optional_truthiness(R, repo, rels)
   g3_transposed_arguments(R, repo, rels)
+  g4_repeated_mutable(R, repo, rels)
+  g5_late_binding(R, repo, rels)
 
 
 def ensure(prop, registry, RuleSpec):
@@ -252,4 +361,4 @@ def ensure(prop, registry, RuleSpec):
 
   def fn(R, repo, _prop=prop):
     run(R, repo, _prop)
-  specs.append(RuleSpec(rid, 'K6+K12', 3 * n, 'bug patterns over the anchored files: options accepted but ignored, optional values tested by truthiness, same-named arguments transposed', fn))
+  specs.append(RuleSpec(rid, 'K6+K12', 5 * n, 'bug patterns over the anchored files: options accepted but ignored, optional values tested by truthiness, same-named arguments transposed', fn))
